@@ -25,6 +25,7 @@ announces; http.client.HTTPResponse as a second opinion on every response):
     quiescence of the server - no queued event, no task, no byte in flight for 3 consecutive loop iterations - not a time-out).
 """
 import email.utils
+import errno
 import io
 import socket
 import zlib
@@ -68,7 +69,7 @@ ASSUMPTIONS = ['requests are delivered whole and are well-formed (segmentation a
                'the application never sets Content-Length / Transfer-Encoding / Connection itself and produces no body for 1xx/204/304',
                '`response.stream = True` is only combined with an iterator body or with later `stream` events (with a str/list body the server loops on 500s: outside the statement)',
                'generators yield at least one value (a generator handler that yields nothing is never answered at all: outside "every response the server writes")',
-               'stream events of the push idiom start after `response_success` and are only used for GET',
+               'stream events of the push idiom start after `response_success`, carry non-empty data and are only used for GET',
                'error pages: only status, framing and the presence of the application\'s description are judged, not the page text',
                'redirect() without a code may answer 302 or 303; a close wish of the client that the server does not honour is not a violation as long as the response says keep-alive',
                'response encoding is utf-8 or latin-1 (server-wide)']
@@ -78,12 +79,12 @@ PROBES = ['resp-checked', 'resp-checked:fault-free', 'resp-checked:faulty', 'kee
           'cfg:Select', 'cfg:Poll', 'cfg:EPoll', 'kind:str', 'kind:bytes', 'kind:list', 'kind:genfunc', 'kind:genret', 'kind:file', 'kind:textfile',
           'kind:stream', 'kind:nobody', 'kind:error', 'status-class:1', 'status-class:2', 'status-class:3', 'status-class:4', 'status-class:5']
 TIERS = {
-    'quick': dict(runs=6000, wall=35, chunk=100, cfg=dict(max_requests=5, sizes=0, round_cap=6000)),
+    'quick': dict(runs=12000, wall=26, chunk=25, cfg=dict(max_requests=5, sizes=0, round_cap=6000)),
     'thorough': dict(runs=150000, wall=600, chunk=200, cfg=dict(max_requests=10, sizes=1, round_cap=30000)),
 }
 
 # finding keys of genuine defects (see findings/C15-*.py); the generator steers clear of their triggers when they are in ctx.avoid
-K_HEAD_STALE = 'C15/own-response/after-HEAD'
+K_HEAD_STALE = 'C15/further-request/after-HEAD'
 K_HEAD_OPEN = 'C15/close/announced-but-open/HEAD'
 K_DUP_ERROR = 'C15/leftover/error-raised'
 K_STREAM_E0 = 'C15/body/stream+empty-first/chunked'
@@ -210,7 +211,7 @@ def expected_for(spec, marker, method, enc, na):
             if code == 304:
                 nobody = True
         elif sub == 'raise_http':
-            st, contains = {getattr(X, spec['cls']).code}, m
+            st, contains = {getattr(X, spec['cls']).code}, None     # which of the two error paths renders the page decides about the description
         elif sub == 'raise_redirect':
             st, contains = {303}, None
         else:
@@ -243,6 +244,9 @@ class _Policy(TapePolicy):
         self.asked = n
         act = TapePolicy.on_send(self, sock, n)
         self.short = bool(act and act[0] == 'short')
+        if act and self.ctx.keep_trace:
+            self.ctx.trace('    fault: server send(%d bytes) to %s:%s -> %s' % (n, sock.sim_peer[0], sock.sim_peer[1], 'only %d bytes taken' % act[1] if self.short
+                                                                          else errno.errorcode.get(act[1], act[1])))
         return act
 
 
@@ -269,11 +273,18 @@ def _run(ctx):
             ctx.stat('real-partial-send')
     NET.oplog = oplog
 
-    def fail(key, detail):
+    def fail(key, detail, r=None):
         if not st['viol']:
             st['viol'] = True
+            if r is not None and any(q['method'] == 'HEAD' for q in r['conn']['hist'][:r['nth']]):
+                # one root cause, one key: whatever clause breaks for a request that follows a HEAD on the same connection is reported as
+                # "a further request on a kept-alive connection is not answered correctly", localised by the history shape
+                key, detail = K_HEAD_STALE, '[%s] %s' % (key, detail)
             ctx.trace('VIOLATION %s: %s' % (key, detail))
             ctx.violation(key, detail)
+
+    def failr(r, key, detail):
+        return fail(key, detail, r)
 
     # ---- the application ------------------------------------------------------------------------------------
     nspecs = ch.randint(1, 5, 'methods')
@@ -335,7 +346,7 @@ def _run(ctx):
                 if kind == 'stream':
                     res.body = (c for c in chunks_for(spec, t, enc))
                 else:   # push: the response stays open, the data follows in `stream` events (examples/web/terminal)
-                    res.sim_push = dict(res=res, chunks=chunks_for(spec, t, enc) + [None], i=0, go=False, wait=0, gap=spec['gap'])
+                    res.sim_push = dict(res=res, chunks=[c for c in chunks_for(spec, t, enc) if c] + [None], i=0, go=False, wait=0, gap=spec['gap'])
                     pushes.append(res.sim_push)
                 return res
         meth.__name__ = 'm%d' % idx
@@ -392,7 +403,7 @@ def _run(ctx):
         c = dict(i=len(conns), p=p, pos=0, usable=True, hist=[], seen=0)
         conns.append(c)
         ctx.log('open', c['i'])
-        ctx.trace('c%d: connect' % c['i'])
+        ctx.trace('c%d: connect from %s:%s' % (c['i'], p.local[0], p.local[1]))
         return c
 
     def draw_request(c):
@@ -412,6 +423,8 @@ def _run(ctx):
                  delay=ch.choice([0, 0, 1, 2, 4, 9], 'start-offset'), limit=1 << 20, stall=0, nth=len(c['hist']))
         if mode == 1:
             r['limit'] = ch.choice([1024, 97, 5000], 'read-limit')
+            if r['limit'] * 600 < spec['size']:
+                r['limit'] = 5000          # keep the number of rounds bounded for the largest bodies
             ctx.stat('peer:slow')
         elif mode == 2:
             r['stall'] = ch.choice([5, 20, 60], 'stall-rounds')
@@ -436,8 +449,7 @@ def _run(ctx):
         return None
 
     def own_key(r):
-        prev = [q['method'] for q in r['conn']['hist'][:r['nth']]]
-        return 'C15/own-response/after-' + ('HEAD' if 'HEAD' in prev else 'GET' if prev else 'nothing')
+        return 'C15/own-response/after-' + ('GET' if r['nth'] else 'nothing')
 
     def describe(r):
         return '%s /m%d?k=%s HTTP/1.%d%s -> %s' % (r['method'], r['idx'], r['marker'], r['ver'], ' Connection: ' + r['wish'] if r['wish'] else '', shape_of(r['spec']))
@@ -455,43 +467,43 @@ def _run(ctx):
         # "each further request is answered correctly": with ITS OWN response
         xm = resp.header('X-Marker')
         if xm is not None and xm != r['marker']:
-            return fail(own_key(r), '%s carries X-Marker %r, i.e. the response to %s' % (what, xm, describe(markers[xm]) if xm in markers else 'nothing that was asked'))
+            return failr(r, own_key(r), '%s carries X-Marker %r, i.e. the response to %s' % (what, xm, describe(markers[xm]) if xm in markers else 'nothing that was asked'))
         # "recovers exactly the status ..."
         if resp.status not in statuses:
-            return fail('C15/status/%s' % shape, '%s: expected status %s' % (what, sorted(statuses)))
+            return failr(r, 'C15/status/%s' % shape, '%s: expected status %s' % (what, sorted(statuses)))
         # "... headers ..." the application set
         if header and xm is None:
-            return fail('C15/headers/app-header-missing/%s' % shape, '%s lacks the X-Marker header the handler set on the response' % what)
+            return failr(r, 'C15/headers/app-header-missing/%s' % shape, '%s lacks the X-Marker header the handler set on the response' % what)
         if spec['sub'] == 'raise_redirect' or (spec['sub'] == 'redirect' and spec['code'] in REDIRECT_WITH_LOCATION):
             loc = resp.header('Location')
             if loc is None or r['marker'] not in loc:
                 fm = foreign_marker(r, loc or '')
-                return fail(own_key(r) if fm else 'C15/headers/location/%s' % shape, '%s: Location is %r, the application redirected to /landing/%s' % (what, loc, r['marker']))
+                return failr(r, own_key(r) if fm else 'C15/headers/location/%s' % shape, '%s: Location is %r, the application redirected to /landing/%s' % (what, loc, r['marker']))
         # "... and body bytes the application produced"; "HEAD, 1xx, 204 and 304 responses carry no body"
         if body is not None and resp.body != body:
             fm = foreign_marker(r, resp.body.decode('latin1')[:4000])
             if fm:
-                return fail(own_key(r), '%s has the body of the response to %s' % (what, describe(markers[fm])))
+                return failr(r, own_key(r), '%s has the body of the response to %s' % (what, describe(markers[fm])))
             n = min(len(body), len(resp.body))
             d = next((i for i in range(n) if body[i] != resp.body[i]), n)
-            return fail('C15/body/%s/%s' % (shape, resp.framing), '%s: application produced %d bytes, client recovers %d; first difference at offset %d: expected %r got %r' % (
+            return failr(r, 'C15/body/%s/%s' % (shape, resp.framing), '%s: application produced %d bytes, client recovers %d; first difference at offset %d: expected %r got %r' % (
                 what, len(body), len(resp.body), d, body[d:d + 24], resp.body[d:d + 24]))
         if contains is not None and contains not in resp.body:
             fm = foreign_marker(r, resp.body.decode('latin1')[:4000])
             if fm:
-                return fail(own_key(r), '%s has the body of the response to %s' % (what, describe(markers[fm])))
-            return fail('C15/body/%s/%s' % (shape, resp.framing), '%s: the error page does not contain the application\'s description %r' % (what, contains))
+                return failr(r, own_key(r), '%s has the body of the response to %s' % (what, describe(markers[fm])))
+            return failr(r, 'C15/body/%s/%s' % (shape, resp.framing), '%s: the error page does not contain the application\'s description %r' % (what, contains))
         # "delimited by Content-Length, chunked encoding or connection close as the request's protocol version ... require"
         if resp.framing == 'chunked' and r['ver'] == 0:
-            return fail('C15/framing/chunked-to-http10/%s' % shape, '%s: chunked transfer coding sent to an HTTP/1.0 client' % what)
+            return failr(r, 'C15/framing/chunked-to-http10/%s' % shape, '%s: chunked transfer coding sent to an HTTP/1.0 client' % what)
         # second opinion: "can be parsed by an independent HTTP client"
         if resp.status != 100:
             so = second_opinion(data[resp.start:resp.end], r['method'])
             ctx.stat('second-opinion')
             if 'error' in so:
-                return fail('C15/http.client/rejects/%s' % shape, '%s: http.client fails on the same bytes: %s' % (what, so['error']))
+                return failr(r, 'C15/http.client/rejects/%s' % shape, '%s: http.client fails on the same bytes: %s' % (what, so['error']))
             if (so['status'], so['body'], so['consumed']) != (resp.status, resp.body, resp.end - resp.start) or so['will_close'] != resp.close_announced:
-                return fail('C15/http.client/disagrees/%s' % shape, '%s: http.client reads status %d, %d body bytes, %d bytes consumed, will_close=%s' % (
+                return failr(r, 'C15/http.client/disagrees/%s' % shape, '%s: http.client reads status %d, %d body bytes, %d bytes consumed, will_close=%s' % (
                     what, so['status'], len(so['body']), so['consumed'], so['will_close']))
         # bookkeeping
         st['checked'] += 1
@@ -542,12 +554,16 @@ def _run(ctx):
             except Malformed as e:
                 # "every response the server writes can be parsed by an independent HTTP client"
                 head = bytes(p.inp[c['pos']:c['pos'] + 160])
-                fail('C15/malformed/%s/%s' % (e.clause, shape_of(r['spec'])), 'request %s: %s; bytes received for it begin %r' % (describe(r), e.detail, head))
+                failr(r, 'C15/malformed/%s/%s' % (e.clause, shape_of(r['spec'])), 'request %s: %s; bytes received for it begin %r' % (describe(r), e.detail, head))
                 return False
             if resp is not None:
                 r['resp'] = resp
                 check_response(r, resp, bytes(p.inp))
         return busy
+
+    def after(c):
+        # pseudo request "whatever comes after the history of c" for the after-HEAD rule of fail()
+        return dict(conn=c, nth=len(c['hist']))
 
     def idle_round(c):
         p = c['p']
@@ -568,9 +584,9 @@ def _run(ctx):
             if diag is not None:
                 xm = diag.header('X-Marker')
                 if xm is not None and xm != r['marker']:
-                    return fail(own_key(r), 'request %s is answered with the header section of the response to %s (X-Marker %r, status %d, %s) and no complete body' % (
+                    return failr(r, own_key(r), 'request %s is answered with the header section of the response to %s (X-Marker %r, status %d, %s) and no complete body' % (
                         describe(r), describe(markers[xm]) if xm in markers else '?', xm, diag.status, 'Content-Length %s' % diag.header('Content-Length')))
-            return fail('C15/unanswered/%s/%s' % (shape, 'nothing-received' if not got else 'incomplete-response'),
+            return failr(r, 'C15/unanswered/%s/%s' % (shape, 'nothing-received' if not got else 'incomplete-response'),
                         'request %s: the server is quiescent, connection %s, but no complete response arrived; received %d bytes: %r' % (
                             describe(r), 'closed' if closed else 'open', len(got), got[:200]))
         c['pos'] = resp.end
@@ -585,14 +601,14 @@ def _run(ctx):
             except Malformed:
                 pass
             cls = 'error-raised' if (r['spec']['sub'] or '').startswith('raise_') else shape
-            return fail('C15/leftover/%s' % cls, 'request %s: %d bytes follow the end of its response %r%s: %r' % (describe(r), len(extra), resp, note, extra[:160]))
+            return failr(r, 'C15/leftover/%s' % cls, 'request %s: %d bytes follow the end of its response %r%s: %r' % (describe(r), len(extra), resp, note, extra[:160]))
         # "the connection is closed iff the response announces it"
         fr = '%s-%s' % (r['method'], resp.framing) if r['method'] != 'HEAD' else 'HEAD'
         if resp.close_announced and not closed:
-            return fail('C15/close/announced-but-open/%s' % fr, 'request %s: response %r announces that the connection will be closed (%s), but the server is quiescent and the connection is still open' % (
+            return failr(r, 'C15/close/announced-but-open/%s' % fr, 'request %s: response %r announces that the connection will be closed (%s), but the server is quiescent and the connection is still open' % (
                 describe(r), resp, 'Connection: ' + resp.header('Connection') if resp.header('Connection') else 'HTTP/1.0 without keep-alive'))
         if closed and not resp.close_announced:
-            return fail('C15/close/closed-unannounced/%s' % fr, 'request %s: response %r announces a persistent connection (HTTP/1.%d, Connection: %s) but the server closed it' % (
+            return failr(r, 'C15/close/closed-unannounced/%s' % fr, 'request %s: response %r announces a persistent connection (HTTP/1.%d, Connection: %s) but the server closed it' % (
                 describe(r), resp, resp.version[1], resp.header('Connection')))
         ctx.stat('closed-by-server' if closed else 'kept-open')
         ctx.log('end', c['i'], r['marker'], closed)
@@ -637,10 +653,10 @@ def _run(ctx):
             if len(p.inp) > c['pos']:
                 last = c['hist'][-1] if c['hist'] else None
                 fail('C15/leftover/idle-connection', 'connection c%d (last request %s) received %d unsolicited bytes while idle: %r' % (
-                    c['i'], describe(last) if last else 'none', len(p.inp) - c['pos'], bytes(p.inp[c['pos']:c['pos'] + 160])))
+                    c['i'], describe(last) if last else 'none', len(p.inp) - c['pos'], bytes(p.inp[c['pos']:c['pos'] + 160])), after(c))
             elif p.eof and c['hist']:
                 last = c['hist'][-1]
-                fail('C15/close/closed-unannounced/idle', 'connection c%d was closed by the server while idle although its last response (to %s) announced keep-alive' % (c['i'], describe(last)))
+                fail('C15/close/closed-unannounced/idle', 'connection c%d was closed by the server while idle although its last response (to %s) announced keep-alive' % (c['i'], describe(last)), after(c))
 
     # ---- the history ----------------------------------------------------------------------------------------
     # quiesce the start-up events
